@@ -333,7 +333,7 @@ func init() {
 		sl := cc.args[2]
 		an, aso := e.arrName(tString)
 		key := Select(Select(e.comp(cc.st, an, aso), app("s_base", sl.Term)), app("s_off", sl.Term))
-		e.declFun("dcval", []string{"Any"}, "Any")
+		e.declDcval()
 		e.mapStore(cc.st, mt, m.Term, e.define(cc.f.prefix+"nestedkey", "String", key), app("dcval", cc.args[1].Term))
 		e.assume(Eq(errV, "nil_any"), "SetNestedField with one path element cannot fail")
 		return Val{T: cc.resT, Term: errV}
@@ -351,7 +351,7 @@ func init() {
 			key := Select(Select(e.comp(cc.st, an, aso), app("s_base", sl.Term)), app("s_off", sl.Term))
 			has := e.mapHas(cc.st, mt, m.Term, key)
 			val := e.mapGet(cc.st, mt, m.Term, key)
-			e.declFun("dcval", []string{"Any"}, "Any")
+			e.declDcval()
 			rt := resTuple(cc).At(0).Type()
 			// found && err == nil ==> result is the (boxed) deep copy of the value; !found ==> nil map
 			e.assume(Implies(And(v.Tup[1].Term, Eq(v.Tup[2].Term, "nil_any")), And(has, Eq(e.reg.box(rt, v.Tup[0].Term), app("dcval", val)), app(">", v.Tup[0].Term, e.compInit[allocComp]))), "NestedMap returns a deep copy of the nested map")
@@ -390,7 +390,7 @@ func init() {
 		return v
 	}
 	specFuncs["dcval"] = func(e *Exec, env *Env, args []Val) (Val, error) {
-		e.declFun("dcval", []string{"Any"}, "Any")
+		e.declDcval()
 		return Val{T: tAny, Term: app("dcval", e.asAny(args[0].T, e.asTerm(args[0])))}, nil
 	}
 	specTable["strings.SplitN"] = func(e *Exec, cc *callCtx) Val {
